@@ -113,7 +113,7 @@ impl<K: Hash + Eq, KH: KeyHasher<K>> TinyLFUBuilder<K, KH> {
         }
 
         let fp_ratio = self.false_positive_ratio.unwrap();
-        if fp_ratio <= 0.0 || fp_ratio >= 1.0 {
+        if !(fp_ratio > 0.0 && fp_ratio < 1.0) {
             return Err(TinyLFUError::InvalidFalsePositiveRatio(fp_ratio));
         }
 
